@@ -16,11 +16,13 @@ from mc.engine import bad, ok, skip
 PROPERTY = "C03"
 LEVEL = "exploration"
 TECHNIQUE = "bounded exhaustive enumeration of nested operator expressions; qp.matrix / simplify / map_wires vs. numpy matrix arithmetic"
-LEVEL_TEXT = ("All expressions of the grammar to depth 1 over 14 leaves (35 unary forms incl. all 10 exponents, 9 control patterns with all "
-              "control values, 7 scalars; 6 binary forms on all ordered leaf pairs; ternary prod/sum on 5 leaves), depth 2 (every unary form "
-              "on ~330 depth-1 expressions, binary forms mixing depth-1 expressions with leaves), depth 3 on 6- and 4-leaf sub-alphabets "
-              "(thorough: depth 2 over the full depth-1 set and depth 4 on 4 leaves) are built through the public API; qp.matrix, the matrix "
-              "after qp.simplify and after three wire relabellings must equal the numpy arithmetic on the operands' matrices to 1e-9 relative.")
+LEVEL_TEXT = ("All expressions of the grammar to depth 1 over 14 leaves (39 unary forms incl. all 10 exponents lazy and 5 eager, 9 control "
+              "patterns with all control values and a work wire, 7 scalars, dunder forms; 6 binary forms on all ordered leaf pairs; ternary "
+              "prod/sum on 5 leaves), depth 2 (every unary form on ~340 depth-1 expressions, binary forms mixing depth-1 expressions with "
+              "leaves), depth 3 on 6- and 4-leaf sub-alphabets, the Controlled class constructor over leaves/products (quick 32k expressions; "
+              "thorough: depth 2 over the full depth-1 set, depth 3 over all leaves, depth 4 on 4 leaves, 167k expressions) are built through "
+              "the public API; qp.matrix, the matrix after qp.simplify (which must also leave its argument unchanged) and after three wire "
+              "relabellings must equal the numpy arithmetic on the operands' matrices to 1e-9 relative.")
 LEVEL_NOTE = ("Leaf matrices come from mc.refgates / explicit arrays; all arithmetic (adjoint, powers, block-controlled form, embeddings, "
               "products, sums, expm) is done by the harness. Fractional powers are compared only inside C01's domain (unitary base whose "
               "un-reduced eigenphases lie strictly inside (-pi, pi)); negative powers only of well-conditioned matrices. Parameters, scalars, "
@@ -154,12 +156,13 @@ def _cctrl_over_controlled(e):
     return any(_cctrl_over_controlled(x) for x in e[1:] if isinstance(x, list) and x and isinstance(x[0], str) and x[0] in X._KINDS)
 
 
-def _sum_of_2pi_shifted(e):
+def _sum_of_2pi_shifted(e, under_power=False):
     """Failure-class test: a sum whose summands include both RX(g1) and RX(g1 + 2pi) = -RX(g1) (equal hashes: rotation angles are
-    hashed modulo 2pi; Sum.simplify merges summands by hash alone)."""
+    hashed modulo 2pi; Sum.simplify merges summands by hash alone), or a sum containing RZ(pi) under a power / product, whose expansion
+    produces RZ(pi) and RZ(3pi) = -RZ(pi) (resp. RZ(2pi) = -I and I) as separate summands."""
     if e[0] in ("sum", "+", "-"):
         lv = X.leaves(e)
-        if "RX0" in lv and "RX0s" in lv:
+        if ("RX0" in lv and "RX0s" in lv) or "RZ1" in lv or lv.count("RX0s") >= 1 and X.has_kind(e, ("pow", "**", "prod", "@")):
             return True
     return any(_sum_of_2pi_shifted(x) for x in e[1:] if isinstance(x, list) and x and isinstance(x[0], str) and x[0] in X._KINDS)
 
@@ -178,6 +181,8 @@ def _mismatch_class(stage, e, op, sh):
 
 def _raise_class(stage, exc, e, sh):
     msg = str(exc)
+    if stage == "simplify" and isinstance(exc, ValueError) and "Integers to negative integer powers are not allowed" in msg:
+        return "simplify-raises:ValueError:integer-coefficient-to-negative-power"
     if stage == "simplify" and isinstance(exc, ValueError) and "control_values should be the same length" in msg and _cctrl_over_controlled(e):
         return "simplify-raises:ValueError:v1-Controlled-over-controlled-Operator2-base"
     if stage == "simplify" and _sum_of_2pi_shifted(e):
@@ -229,6 +234,10 @@ def check(e):
                    _raise_class("matrix", exc, e, sh), "SparseMatrixUndefinedError from qp.matrix(op) (has_sparse_matrix is %s)" % op.has_sparse_matrix,
                    "a matrix or MatrixUndefinedError", op=repr(op)[:300])
     if not _close(got, ref, tol):
+        if _fractional_base_outside(e) and not _fractional_base_outside_op(op):
+            # eager qp.pow(..., lazy=False) already rewrote the base with a rotation angle outside (-pi, pi) (S**-1 -> PhaseShift(3pi/2)); the
+            # fractional power of THAT operator is outside the domain C01 covers (documented branch-cut ambiguity)
+            return skip("fractional-power:eager-base-rewritten-with-angle-outside(-pi,pi)")
         return bad(_mismatch_class("matrix", e, op, sh), got, ref, op=repr(op)[:300], wire_order=Wx)
     # ---- simplify keeps the linear map
     try:
@@ -242,13 +251,27 @@ def check(e):
         gs = _dense(s, Wx)
     except (MatrixUndefinedError, SparseMatrixUndefinedError):
         gs = None
+    except AttributeError as exc:
+        if "has no attribute 'batch_size'" in str(exc) and "Pow2" in str(exc):
+            # one defect class: simplify puts an Operator2 power (Pow2) under a v1 symbolic wrapper, whose matrix() reads base.batch_size
+            return bad("simplify-result-matrix-raises:AttributeError:Pow2-has-no-batch_size-under-v1-wrapper", f"{exc}"[:300], "a matrix",
+                       op=repr(op)[:300], simplified=repr(s)[:300])
+        return bad(f"simplify-result-matrix-raises:AttributeError:{sh}", f"{exc}"[:300], "a matrix", simplified=repr(s)[:300])
+    except Exception as exc:  # noqa: BLE001
+        return bad(f"simplify-result-matrix-raises:{type(exc).__name__}:{sh}", f"{type(exc).__name__}: {exc}"[:300], "a matrix", simplified=repr(s)[:300])
+    if gs is not None and not _close(gs, ref, tol) and _close(gs, -ref, tol) and not X.has_kind(e, ("sum", "+", "-")) and \
+            any(lf in ("RZ1", "RX0s", "RX0") for lf in X.leaves(e)) and not _fractional_base_outside(e) and not _fractional_base_outside_op(op):
+        # one defect class: a product of rotations on one wire whose angles add up to 2pi (mod 4pi) is simplified to the identity,
+        # i.e. the factor -1 = R(2pi) is dropped
+        return bad("simplify-changes-map:product-of-rotations-adding-to-2pi-becomes-identity(sign-lost)", gs, ref, op=repr(op)[:300],
+                   simplified=repr(s)[:300])
     if gs is not None and not _close(gs, ref, tol):
         return bad(_mismatch_class("simplify-changes-map", e, op, sh), gs, ref, op=repr(op)[:300], simplified=repr(s)[:300], wire_order=Wx)
     # ---- simplify must not change the operator it was given (cached representations are shared with later calls)
     try:
         again = _dense(op, Wx)
     except Exception as exc:  # noqa: BLE001
-        cls = "SProd(0)-over-ChangeOpBasis" if (type(op).__name__ == "SProd" and X.has_kind(e, ("cob",)) and abs(complex(op.scalar)) == 0) else sh
+        cls = "zero-pauli_rep-over-ChangeOpBasis" if (X.has_kind(e, ("cob",)) and type(exc).__name__ == "SparseMatrixUndefinedError") else sh
         return bad(f"simplify-mutates-operand:matrix-raises-afterwards:{type(exc).__name__}:{cls}", f"{type(exc).__name__}: {exc}"[:300],
                    "qp.matrix(op) as before qp.simplify(op)", op=repr(op)[:300])
     if not _close(again, ref, tol):
